@@ -107,6 +107,27 @@ def events (cfg : Cfg) (r : Req) (v : Val) (newIt : Bool) : List Ev :=
 section
 variable {κ : Type} [DecidableEq κ] (H : Pt → κ) (cfg : Cfg) (val : String → Pt → Val)
 
+/-- `database.store(x, {name: v})` after the original callable has run (the disciplines have been
+    executed: the crash points are before this). -/
+def storeSt (s : St κ) (r : Req) (v : Val) : St κ :=
+  { s with h := doStore H s.h r.p [(r.name, v)], calls := s.calls ++ [(r.name, r.p)] }
+
+/-- `notify_store_listeners`: the backup callback when attached to the store events. -/
+def notifyStore (s : St κ) : St κ := if cfg.eachCall then backup s else s
+
+/-- `notify_new_iter_listeners`, in attachment order: the backup callback (attached by
+    `set_optimization_history_backup`, before `execute`), then the driver's
+    `_new_iteration_callback` (`current += 1`). -/
+def notifyNewIter (s : St κ) : St κ :=
+  let s' := if cfg.eachIter then backup s else s
+  { s' with counter := s'.counter + 1 }
+
+/-- The state after a request that is computed with result `v`: store, store listeners, then — when
+    the point had no recorded output — new-iteration listeners. -/
+def computedSt (s : St κ) (r : Req) (v : Val) : St κ :=
+  let s2 := notifyStore cfg (storeSt H s r v)
+  if unseen s.h.db r.p then notifyNewIter cfg s2 else s2
+
 /-- One request through `ProblemFunction._compute_*_db*` with the backup listeners attached. -/
 def step (s : St κ) (r : Req) : St κ × Outcome × List Ev :=
   match recorded s.h.db r.p r.name with
@@ -116,16 +137,7 @@ def step (s : St κ) (r : Req) : St κ × Outcome × List Ev :=
     if newIt && maxReached s then (s, .maxIter, [])
     else
       let v := val r.name r.p
-      -- the disciplines run (crash points), then `database.store(x, {name: v})`
-      let s1 : St κ := { s with h := doStore H s.h r.p [(r.name, v)], calls := s.calls ++ [(r.name, r.p)] }
-      -- store listeners
-      let s2 := if cfg.eachCall then backup s1 else s1
-      -- new-iteration listeners, in attachment order: backup, then the driver's counter
-      let s3 := if newIt then
-                  let s3a := if cfg.eachIter then backup s2 else s2
-                  { s3a with counter := s3a.counter + 1 }
-                else s2
-      (s3, .computed v, events cfg r v newIt)
+      (computedSt H cfg s r v, .computed v, events cfg r v newIt)
 
 /-- `execute`: the requests are issued until one raises `MaxIterReachedException`. Returns the
     final state, the event trace and whether the budget stopped the run. -/
@@ -145,17 +157,30 @@ def runSt (s : St κ) (rs : List Req) : St κ := (run H cfg val s rs).1
     (`none`: the algorithm stops by itself). -/
 abbrev Strategy := List (Req × Val) → Option Req
 
-/-- `n` steps of an algorithm through the problem functions. -/
-def runStrat (strat : Strategy) : Nat → St κ → List (Req × Val) → St κ
-  | 0, s, _ => s
-  | n + 1, s, hist =>
-    match strat hist with
-    | none => s
-    | some r =>
-      match step H cfg val s r with
-      | (s', .maxIter, _) => s'
-      | (s', .served v, _) => runStrat strat n s' (hist ++ [(r, v)])
-      | (s', .computed v, _) => runStrat strat n s' (hist ++ [(r, v)])
+/-- An algorithm running through the problem functions: the state, what the algorithm has
+    observed so far, and whether it is still running. -/
+structure RunCfg (κ : Type) where
+  s : St κ
+  hist : List (Req × Val)
+  live : Bool
+
+/-- One step of an algorithm: it chooses its next request from what it has observed, the request
+    goes through the problem function, the answer is appended to the observations; the run ends
+    when the algorithm stops or `MaxIterReachedException` is raised. -/
+def stratStep (strat : Strategy) (c : RunCfg κ) : RunCfg κ :=
+  if !c.live then c else
+  match strat c.hist with
+  | none => { c with live := false }
+  | some r =>
+    match step H cfg val c.s r with
+    | (s', .maxIter, _) => { s := s', hist := c.hist, live := false }
+    | (s', .served v, _) => { s := s', hist := c.hist ++ [(r, v)], live := true }
+    | (s', .computed v, _) => { s := s', hist := c.hist ++ [(r, v)], live := true }
+
+/-- `n` steps of an algorithm. -/
+def stratRun (strat : Strategy) : Nat → RunCfg κ → RunCfg κ
+  | 0, c => c
+  | n + 1, c => stratStep H cfg val strat (stratRun strat n c)
 
 end
 
@@ -170,23 +195,14 @@ def finish {κ : Type} (s : St κ) (n0 : Nat) : St κ :=
 
 /-! ### Crash and restart -/
 
-/-- The entries `update_from_file` reads, in file order (`none`: it raises). -/
-def decodeFile (F : File) : Option (List (Pt × Outs)) :=
-  match optAll ((List.range F.length).map (fun i => alook i F)) with
-  | none => none
-  | some es => optAll (es.map (fun e => (decodeEntry e).map (fun o => (e.x, o))))
-
-/-- `database.update_from_hdf(path)` into the empty database of a new process: every entry goes
-    through `Database.store`, so every loaded point is pending again. -/
-def loadState {κ : Type} [DecidableEq κ] (H : Pt → κ) (F : File) : Option (State κ) :=
-  (decodeFile F).map (fun ds => ds.foldl (fun s po => doStore H s po.1 po.2) { db := [], pend := [], file := F })
-
-/-- A new process with `set_optimization_history_backup(path, load=True)`: the database is the
-    content of the file, the counter is the number of loaded entries. (An absent file is the empty
-    file: nothing is loaded.) -/
-def restart {κ : Type} [DecidableEq κ] (H : Pt → κ) (F : File) : Option (St κ) :=
-  (loadState H F).map (fun h =>
-    { h := h, snap := h.db, counter := h.db.length, maximum := 0, calls := [], ok := true })
+/-- A new process with `set_optimization_history_backup(path, load=True)`:
+    `database.update_from_hdf(path)` into the empty database of the new problem is C11's `doReload`
+    (the database is the content of the file, every loaded point is pending again, the stores made
+    after the last export are lost); the counter is the number of loaded entries. An absent file is
+    the empty file: nothing is loaded. Only the file of the dead process `h` matters. -/
+def restart {κ : Type} [DecidableEq κ] (H : Pt → κ) (h : State κ) : Option (St κ) :=
+  (doReload H h).map (fun h' =>
+    { h := h', snap := h'.db, counter := h'.db.length, maximum := 0, calls := [], ok := true })
 
 /-- The events before the `k`-th `Call` (`k ≥ 1`): what happened before the process died inside
     its `k`-th discipline execution. The whole trace when there are fewer than `k` calls. -/
